@@ -602,6 +602,7 @@ func irrelevant4(r *ev.Run, id string, v Vec, h handler.Handler4) {
 		return
 	}
 	prl := append([]byte{}, codes...)
+	var preset *pkt.Opt4 // an option an EARLIER plugin of the chain has already put into the reply
 	build := func(extra *pkt.Opt4, mt byte) []byte {
 		p := pkt.V4{Op: 1, HType: 1, HLen: 6, Xid: 0x17171718, Flags: 0x8000}
 		copy(p.CHAddr[:], []byte{2, 0, 0, 0x17, 0, 2})
@@ -617,6 +618,9 @@ func irrelevant4(r *ev.Run, id string, v Vec, h handler.Handler4) {
 			return "", "unparseable"
 		}
 		resp := mkResp4(req, req4{ack: mt == 3})
+		if preset != nil {
+			resp.UpdateOption(dhcpv4.OptGeneric(dhcpv4.GenericOptionCode(preset.Code), preset.Data))
+		}
 		pan := ""
 		var out *dhcpv4.DHCPv4
 		func() {
@@ -665,12 +669,80 @@ func irrelevant4(r *ev.Run, id string, v Vec, h handler.Handler4) {
 			}
 		}
 		r.Eval(v.Plugin + "/v4/irrelevant-request-options")
+		// the interplay with other plugins: the client also asks for another option, and an
+		// earlier plugin of the chain has already put that option into the reply - this
+		// plugin still adds exactly its own
+		for _, x := range pkt.Extra4(skip...) {
+			x := x
+			own1 := false
+			for _, c := range codes {
+				own1 = own1 || c == x.Code
+			}
+			if own1 || len(x.Data) != 4 {
+				continue
+			}
+			prl = append(append([]byte{}, codes...), x.Code)
+			preset = nil
+			base2, berr2 := own(build(nil, mt), mt)
+			preset = &x
+			got, gerr := own(build(nil, mt), mt)
+			preset = nil
+			prl = append([]byte{}, codes...)
+			if berr2 != "" {
+				continue
+			}
+			if gerr != "" || got != base2 {
+				r.Violate(fmt.Sprintf("C17/%s/v4/depends-on-other-plugins-option", v.Plugin), fmt.Sprintf("%s %q: when the client also asks for option %d and the reply already carries it (added by an earlier plugin), the plugin's own options in the reply are %q (%s); without that option in the reply %q", v.Plugin, v.Args, x.Code, got, gerr, base2), Case{v, hex.EncodeToString(build(nil, mt)), fmt.Sprintf("reply already carries option %d", x.Code)})
+				break
+			}
+		}
+		r.Eval(v.Plugin + "/v4/other-plugins-options")
 	}
+}
+
+// anyOption4: for C19, every other option code in seven payload shapes is added to a DISCOVER
+// and a REQUEST (full parameter request list): the handler of an accepted configuration must
+// not panic on any of them, and what it returns must serialise.
+func anyOption4(r *ev.Run, id string, v Vec, h handler.Handler4) {
+	if id != "C19" {
+		return
+	}
+	prl := append([]byte{1, 3, 6, 15}, ownCodes4[v.Plugin]...)
+	for _, mt := range []byte{1, 3} {
+		for _, x := range pkt.Extra4(55) {
+			p := pkt.V4{Op: 1, HType: 1, HLen: 6, Xid: 0x19191919, Flags: 0x8000}
+			copy(p.CHAddr[:], []byte{2, 0, 0, 0x19, 0, 1})
+			p.Opts = []pkt.Opt4{{Code: 53, Data: []byte{mt}}, {Code: 55, Data: prl}, x}
+			b := p.Bytes()
+			req, err := dhcpv4.FromBytes(b)
+			if err != nil {
+				continue
+			}
+			resp := mkResp4(req, req4{ack: mt == 3})
+			pan := func() (p string) {
+				defer func() {
+					if e := recover(); e != nil {
+						p = fmt.Sprintf("%v\n%s", e, trim(debug.Stack()))
+					}
+				}()
+				if out, _ := h(req, resp); out != nil {
+					_ = out.ToBytes()
+				}
+				return ""
+			}()
+			if pan != "" {
+				r.Violate("C19/"+v.Plugin+"/v4/handler-panic", fmt.Sprintf("%s %q accepted at setup, then the handler panicked on a request carrying option %d = %x: %s", v.Plugin, v.Args, x.Code, x.Data, firstLine(pan)), Case{v, hex.EncodeToString(b), fmt.Sprintf("extra option %d", x.Code)})
+				return
+			}
+		}
+	}
+	r.Eval(v.Plugin + "/v4/any-request-option")
 }
 
 func run4(r *ev.Run, id string, v Vec, h handler.Handler4) {
 	codes := ownCodes4[v.Plugin]
 	defer irrelevant4(r, id, v, h)
+	defer anyOption4(r, id, v, h)
 	for _, rq := range battery4(codes) {
 		c := Case{v, hex.EncodeToString(rq.bytes), rq.desc}
 		req, err := dhcpv4.FromBytes(rq.bytes)
